@@ -31,6 +31,9 @@ pub struct Config {
     /// expressions `E` becomes `|| -> (o: TYPE) ensures o == E { E }` (Verus attaches no postcondition to an
     /// unannotated closure; the postcondition added is the closure's own body)
     pub closure_post: Vec<(String, String)>,
+    /// R-mirror: every assignment `X = E` to one of these variables is followed by a ghost copy of the new
+    /// value into the named ghost out-parameter: `{ X = E; proof { *G.borrow_mut() = X; } }`
+    pub mirror: Vec<(String, String)>,
     pub state_methods: Vec<String>,
     pub state_calls: Vec<String>,
     pub state_arg: String,
@@ -61,6 +64,10 @@ impl Config {
             rmatch_map: v["rmatch_map"].as_bool().unwrap_or(false),
             drop_stmts: strs(&v["drop_stmts"]).iter().map(|s| norm(s)).collect(),
             rfor: v["rfor"].as_bool().unwrap_or(false),
+            mirror: v["mirror"]
+                .as_object()
+                .map(|m| m.iter().map(|(k, t)| (k.clone(), t.as_str().unwrap_or("").to_string())).collect())
+                .unwrap_or_default(),
             closure_post: v["closure_post"]
                 .as_object()
                 .map(|m| m.iter().map(|(k, t)| (norm(k), t.as_str().unwrap_or("").to_string())).collect())
@@ -695,6 +702,18 @@ impl<'a, 'ast> Visit<'ast> for Rewriter<'a> {
                 self.edits.replace(whole, pieces, "R-destructure");
                 self.note("R-destructure", a.span());
                 return;
+            }
+        }
+        if let Expr::Path(p) = &*a.left {
+            if let Some(id) = p.path.get_ident() {
+                if let Some((x, g)) = self.cfg.mirror.iter().find(|(x, _)| id == x) {
+                    self.visit_expr(&a.right);
+                    let whole = self.r(a.span());
+                    self.edits.insert(whole.0, "{ ".to_string(), "R-mirror");
+                    self.edits.insert(whole.1, format!("; proof {{ *{}.borrow_mut() = {}; }} }}", g, x), "R-mirror");
+                    self.note("R-mirror", a.span());
+                    return;
+                }
             }
         }
         visit::visit_expr_assign(self, a);
